@@ -53,7 +53,8 @@ BOUNDS = {
     # (elements, groups, repeaters, kind set, indents)
     'quick': dict(sweeps=[(1, 1, 1, 'all', INDENTS), (2, 0, 0, 'all', INDENTS[:1]), (2, 1, 1, 'mid', INDENTS[:2]), (3, 0, 0, 'mid', INDENTS[:1]),
                           (4, 0, 0, 'tiny', INDENTS[:1])]),
-    'thorough': dict(sweeps=[(1, 1, 1, 'all', INDENTS), (2, 1, 1, 'all', INDENTS[:2]), (3, 1, 1, 'mid', INDENTS[:1]), (4, 0, 0, 'tiny', INDENTS[:1])]),
+    'thorough': dict(sweeps=[(1, 1, 1, 'all', INDENTS), (2, 1, 1, 'all', INDENTS[:2]), (3, 0, 0, 'mid', INDENTS[:1]), (3, 1, 1, 'tiny', INDENTS[:1]),
+                             (4, 0, 0, 'tiny', INDENTS[:1])]),
 }
 NSH = 48
 
